@@ -475,16 +475,45 @@ func runC10(c *an.Ctx) {
 	for _, w := range writes {
 		c.Check(fl.MustPrecede(an.IsInvoke("SetWriteDeadline", nil), w), "C10.e", "write-deadline", "SetWriteDeadline precedes the first response write", handler, w, "", nil)
 	}
+	// the context handed to a request function: a chain of derivations (WithTimeout, WithCancel,
+	// WithDeadline, WithValue, a tracer's Start — each yields a child that is done no later than
+	// its parent) that is rooted in serv.ctx and contains WithTimeout(…, Params.RequestTimeout)
+	var ctxChain func(v ssa.Value, depth int) (timed, rooted bool)
+	ctxChain = func(v ssa.Value, depth int) (bool, bool) {
+		if depth > 6 {
+			return false, false
+		}
+		if isRecvField(ht, v, "ctx") {
+			return false, true
+		}
+		var call *ssa.Call
+		switch x := v.(type) {
+		case *ssa.Extract:
+			if x.Index != 0 {
+				return false, false
+			}
+			call, _ = x.Tuple.(*ssa.Call)
+		case *ssa.Call:
+			call = x
+		}
+		if call == nil || len(call.Call.Args) == 0 {
+			return false, false
+		}
+		name := an.StaticFullName(&call.Call)
+		switch {
+		case name == "context.WithTimeout":
+			t, r := ctxChain(call.Call.Args[0], depth+1)
+			return t || ht.Of(call.Call.Args[1]) == "p0.Params.RequestTimeout", r
+		case name == "context.WithCancel" || name == "context.WithDeadline" || name == "context.WithValue":
+			return ctxChain(call.Call.Args[0], depth+1)
+		case call.Call.IsInvoke() && call.Call.Method.Name() == "Start" && strings.HasSuffix(call.Call.Value.Type().String(), "trace.Tracer"):
+			return ctxChain(call.Call.Args[0], depth+1)
+		}
+		return false, false
+	}
 	isTimeoutCtx := func(v ssa.Value) bool {
-		ex, ok := v.(*ssa.Extract)
-		if !ok || ex.Index != 0 {
-			return false
-		}
-		call, ok := ex.Tuple.(*ssa.Call)
-		if !ok || an.StaticFullName(&call.Call) != "context.WithTimeout" {
-			return false
-		}
-		return isRecvField(ht, call.Call.Args[0], "ctx") && ht.Of(call.Call.Args[1]) == "p0.Params.RequestTimeout"
+		t, r := ctxChain(v, 0)
+		return t && r
 	}
 	for _, callee := range []*ssa.Function{byHash, rng} {
 		for _, call := range callsTo(handler, callee) {
